@@ -48,6 +48,14 @@ def do_call(E: Engine, node: ast.Call, st: State):
             v = E.ev(node.args[0], st)
             v = E.to_cplx(v)
             return v.re if nm == "creal" else v.im
+        if nm in ("arr1", "arr2") and nm not in st.env:
+            return derived_array(E, nm, node, st)
+        if nm == "isint" and nm not in st.env:
+            v = E.ev(node.args[0], st)
+            return True if sort_kind(v) == "int" else (z3.ToReal(trunc(to_real(v))) == to_real(v))
+        if nm == "floor" and nm not in st.env:
+            v = E.ev(node.args[0], st)
+            return v if sort_kind(v) == "int" else trunc(to_real(v))    # used on non-negative integer-valued floats
         if nm == "toreal":
             return to_real(E.ev(node.args[0], st))
         if nm == "toint":
@@ -59,9 +67,17 @@ def do_call(E: Engine, node: ast.Call, st: State):
             m = MACROS[nm]
             args = [E.ev(a, st) for a in node.args]
             if m.opaque is not None and nm not in (getattr(E.c, "reveal", None) or []):
-                sorts = [{"int": I, "real": R, "bool": B}[t] for t in m.opaque[0]]
-                f = z3.Function("macro." + nm, *(sorts + [{"int": I, "real": R, "bool": B}[m.opaque[1]]]))
-                zargs = [to_real(a) if t == "real" else (to_int_strict(a) if t == "int" else toz(a)) for a, t in zip(args, m.opaque[0])]
+                def _srt(t):
+                    ty = parse_type(t)
+                    return arr_sort(ty[1], ty[2]) if ty[0] == "arr" else {"int": I, "real": R, "bool": B}[t]
+                sorts = [_srt(t) for t in m.opaque[0]]
+                f = z3.Function("macro." + nm, *(sorts + [_srt(m.opaque[1])]))
+                zargs = []
+                for a, t in zip(args, m.opaque[0]):
+                    if parse_type(t)[0] == "arr":
+                        zargs.append(E.deref(a, st).data)      # NB: an opaque macro over an array must receive its shape as explicit arguments
+                    else:
+                        zargs.append(to_real(a) if t == "real" else (to_int_strict(a) if t == "int" else toz(a)))
                 return f(*zargs)
             sub = State(dict(zip(m.params, args)), st.heap, st.pc)
             return E.ev(ast.parse(m.body, mode="eval").body, sub)
@@ -181,6 +197,38 @@ def _occurs_pat(v, p):
     return _occurs(v, p)
 
 
+def derived_array(E: Engine, nm, node, st):
+    """arr1(n, lambda i: e) / arr2(H, W, lambda a, b: e): the ghost array defined pointwise by e.  Identical
+    definitions (up to renaming of the lambda variables) denote the SAME array symbol, so spec functions applied to
+    them (cnt2 of a derived mask, ...) share one instance."""
+    rank = 1 if nm == "arr1" else 2
+    dims = [to_int_strict(E.ev(a, st)) for a in node.args[:rank]]
+    lam = node.args[rank]
+    if not isinstance(lam, ast.Lambda) or len(lam.args.args) != rank:
+        raise OutsideSubset("arr1/arr2 form")
+    vs = [E.fresh(a.arg, I) for a in lam.args.args]
+    sub = State(dict(st.env), st.heap, st.pc)
+    for a, v in zip(lam.args.args, vs):
+        sub.env[a.arg] = v
+    E.bound_vars.extend(vs)
+    try:
+        body = E.ev(lam.body, sub)
+    finally:
+        del E.bound_vars[len(E.bound_vars) - rank:]
+    body = toz(body if not isinstance(body, bool) else z3.BoolVal(body))
+    elem = sort_kind(body)
+    canon = [(v, z3.Const("dv!%d" % i, I)) for i, v in enumerate(vs)]
+    key = ("derived", z3.substitute(body, *canon).sexpr(), tuple(d.sexpr() for d in dims))
+    if key not in E.sum_inst:
+        data = E.fresh("derived", arr_sort(elem, rank))
+        out = Arr(data, dims, elem)
+        rng = z3.And([z3.And(v >= 0, v < d) for v, d in zip(vs, dims)])
+        sel = E.select(out, vs)
+        ax = z3.ForAll(vs, z3.Implies(rng, sel == body), patterns=[sel])
+        E.sum_inst[key] = (out, [ax])
+    return E.sum_inst[key][0]
+
+
 def astype_int(E, arr, st):
     if arr.elem == "int":
         rid = next(E.ids); st.heap[rid] = Arr(arr.data, arr.shape, "int"); return Ref(rid)
@@ -224,10 +272,17 @@ def np_sum(E: Engine, arr: Arr, st):
             j = E.fresh("j", I)
             allb = lambda m: z3.ForAll([j], z3.Implies(z3.And(j >= 0, j < m), z3.Select(arr.data, j)))
             P = lambda m: z3.And(f(m) >= 0, f(m) <= m, (f(m) == m) == allb(m))
+            tail = lambda m: z3.ForAll([j], z3.Implies(z3.And(j >= 1, j < m), z3.Select(arr.data, j)))
+            b0 = z3.Select(arr.data, z3.IntVal(0))
+            Q = lambda m: z3.Implies(z3.Not(b0), z3.And(f(m) <= m - 1, (f(m) == m - 1) == tail(m)))
             E.spec_inst[key] = {"f": f, "name": "asum", "axioms": ax, "env": {}, "lemmas": [
                 {"name": "asum.count@%s" % E.cur_line,
                  "parts": [("base", [], P(z3.IntVal(0))), ("step", [n >= 0, P(n)], P(n + 1))],
-                 "stmt": z3.ForAll([n], z3.Implies(n >= 0, P(n)), patterns=[f(n)]), "hints": []}]}
+                 "stmt": z3.ForAll([n], z3.Implies(n >= 0, P(n)), patterns=[f(n)]), "hints": []},
+                # with a false first element: S(n) <= n-1, and S(n) == n-1  <=>  all of 1..n-1 true
+                {"name": "asum.count_tail@%s" % E.cur_line,
+                 "parts": [("base", [], Q(z3.IntVal(1))), ("step", [n >= 1, Q(n)], Q(n + 1))],
+                 "stmt": z3.ForAll([n], z3.Implies(n >= 1, Q(n)), patterns=[f(n)]), "hints": []}]}
         else:
             E.spec_inst[key] = {"f": f, "name": "asum", "axioms": ax, "env": {}, "lemmas": []}
     f, _ = E.sum_inst[key]
